@@ -270,15 +270,36 @@ Definition issuer (c : config) : string := if String.eqb (c_name c) "" then "hei
 Definition ttl_of (c : config) : Z := match c_ttl c with Some t => t | None => 300 * second end.
 Definition cache_leeway : Z := 5 * second.
 
+(** a rule-level override handed to jwtFinalizer.WithConfig: only ttl and claims may be
+    given; any other member (header, signer, ...) is a decoding error ([o_unknown]) *)
+Record override := { o_ttl : option Z; o_claims : option (list (string * cval)); o_unknown : bool }.
+
+(** WithConfig: decode + validate (ttl > 1s), then every given member replaces the
+    prototype's, every member not given keeps the prototype's value; signer (key id, name,
+    key store), header and the registry are the prototype's.  An empty override returns
+    the prototype itself, which is the same overlay. *)
+Definition with_config (c : config) (o : override) : res config :=
+  if o_unknown o then Err else
+  if match o_ttl o with Some t => (t <=? second)%Z | None => false end then Err else
+  Ok {| c_keyid := c_keyid c; c_name := c_name c;
+        c_ttl := match o_ttl o with Some t => Some t | None => c_ttl c end;
+        c_claims := match o_claims o with Some t => Some t | None => c_claims c end;
+        c_cache := c_cache c; c_before := c_before c; c_after := c_after c |}.
+
 (** calculateCacheKey: signer hash (kid, alg, iss), template hash, ttl, subject hash, outputs.
-    Template, ttl and outputs are constant for one finalizer, so within a run the key is
-    (kid, alg, iss, subject) — and, with the repair proposed for C16-F1 (fixes/C16-F1.diff:
-    jwtSigner.Hash also covers the thumbprint of the public key), the key itself. *)
-Definition ckey := (string * string * string * string * option keyref)%type.
+    Outputs are constant in a run; template and ttl differ between a prototype and its
+    rule-level variants.  With the repair of C16-F1 (fix: commit d9caf75: jwtSigner.Hash also
+    covers the thumbprint of the public key) the key itself is part of it. *)
+Record ckey := { ck_kid : string; ck_alg : string; ck_iss : string; ck_sub : string;
+                 ck_key : option keyref; ck_ttl : Z; ck_claims : option (list (string * cval)) }.
+
+Definition tmpl_eqb (a b : list (string * cval)) : bool :=
+  list_eqb (fun x y => String.eqb (fst x) (fst y) && cval_eqb (snd x) (snd y)) a b.
+
 Definition ckey_eqb (a b : ckey) : bool :=
-  match a, b with (a1, a2, a3, a4, a5), (b1, b2, b3, b4, b5) =>
-    String.eqb a1 b1 && String.eqb a2 b2 && String.eqb a3 b3 && String.eqb a4 b4
-    && option_eqb keyref_eqb a5 b5 end.
+  String.eqb (ck_kid a) (ck_kid b) && String.eqb (ck_alg a) (ck_alg b) && String.eqb (ck_iss a) (ck_iss b)
+  && String.eqb (ck_sub a) (ck_sub b) && option_eqb keyref_eqb (ck_key a) (ck_key b)
+  && Z.eqb (ck_ttl a) (ck_ttl b) && option_eqb tmpl_eqb (ck_claims a) (ck_claims b).
 
 Definition cache := list (ckey * token).
 Fixpoint cache_get (k : ckey) (c : cache) : option token :=
@@ -289,12 +310,14 @@ Fixpoint cache_get (k : ckey) (c : cache) : option token :=
 
 Record world := { w_st : state; w_cache : cache; w_minted : nat }.
 
-(** jwtFinalizer.Execute for a non-nil subject with id [sub] at time [now];
+(** jwtFinalizer.Execute for a non-nil subject with id [sub] at time [now], on the
+    prototype or a variant ([c] = its effective configuration);
     [fixed_F1] = is the repair of C16-F1 in the tree *)
 Definition exec (fixed_F1 : bool) (c : config) (w : world) (sub : string) (now : Z) : world * res token :=
   let st := w_st w in
-  let key : ckey := (j_kid (s_jwk st), j_alg (s_jwk st), issuer c, sub,
-                     if fixed_F1 then Some (keyref_of (j_key (s_jwk st))) else None) in
+  let key : ckey := {| ck_kid := j_kid (s_jwk st); ck_alg := j_alg (s_jwk st); ck_iss := issuer c; ck_sub := sub;
+                       ck_key := if fixed_F1 then Some (keyref_of (j_key (s_jwk st))) else None;
+                       ck_ttl := ttl_of c; ck_claims := c_claims c |} in
   match (if c_cache c then cache_get key (w_cache w) else None) with
   | Some t => (w, Ok t)
   | None =>
@@ -333,7 +356,9 @@ Definition verifies (t : token) (ks : list jwk) : bool :=
 (* ------------------------------------------------------------------ histories *)
 
 Inductive op :=
-| OExec (sub : string) (now : Z)      (* Execute; [now] = the instant Sign reads if it mints *)
+| OExec (ov : option override) (sub : string) (now : Z)
+     (* Execute on the prototype (None) or on prototype.WithConfig(override);
+        [now] = the instant Sign reads if it mints *)
 | OReload (f : pem_file)              (* the key-store file is replaced, OnChanged runs *)
 | OJwks.                              (* GET /.well-known/jwks *)
 
@@ -344,11 +369,16 @@ Inductive oobs :=
 
 Definition step (fixed_F1 : bool) (c : config) (w : world) (o : op) : world * oobs :=
   match o with
-  | OExec sub now =>
-    match exec fixed_F1 c w sub now with
-    | (w', Ok t) => (w', XToken t (verifies t (jwks c w')))
-    | (w', Err) => (w', XErr)
-    | (w', Panic) => (w', XPanic)
+  | OExec ov sub now =>
+    match (match ov with None => Ok c | Some o => with_config c o end) with
+    | Ok ce =>
+      match exec fixed_F1 ce w sub now with
+      | (w', Ok t) => (w', XToken t (verifies t (jwks c w')))
+      | (w', Err) => (w', XErr)
+      | (w', Panic) => (w', XPanic)
+      end
+    | Err => (w, XErr)
+    | Panic => (w, XPanic)
     end
   | OReload f =>
     match reload c w f with
